@@ -228,6 +228,16 @@ func (ev *evaluator) stmt(fr *frame, s ast.Stmt) (flow, []value) {
 	switch s := s.(type) {
 	case *ast.ReturnStmt:
 		var vals []value
+		if len(s.Results) == 1 {
+			// `return f(…)` forwards every result of f
+			if ce, ok := s.Results[0].(*ast.CallExpr); ok {
+				if tv, isT := info.Types[ce.Fun]; !(isT && tv.IsType()) {
+					if rs := ev.call(fr, ce); len(rs) > 1 {
+						return flowReturn, rs
+					}
+				}
+			}
+		}
 		for _, r := range s.Results {
 			vals = append(vals, ev.expr(fr, r))
 		}
